@@ -102,6 +102,7 @@ def explore(ctx):
                 res.failures.append({"what": "unmarshal(T, unmarshal(T, x)) != unmarshal(T, x)", "input": inp,
                                      "real": {"first": r_["ok"], "second": a}})
     flagged_patterns(res)
+    twin_values(res)
     from .c01 import inheritance_probe
     inheritance_probe(res, "pass")
     return res
@@ -216,6 +217,121 @@ def flagged_patterns(res):
             res.count("oracle:passthrough-ok(flagged-pattern)")
 
 
+# ---- equal-but-distinguishable values in ONE process: a valid value passes through as ITSELF (class, digits, sign, offset), whatever
+# equal value the same routine saw before.  (annotation, values given in this order to the same process; each later one is valid.)
+TWIN_CASES = [
+    ("decimal.Decimal", ["decimal.Decimal('2.50')", "decimal.Decimal('2.5')", "decimal.Decimal('2.500')", "decimal.Decimal('-0')", "decimal.Decimal('0')"]),
+    ("float", ["0.0", "-0.0", "1.0", "-1.0"]), ("float", ["-0.0", "0.0"]),
+    ("int", ["True", "1", "False", "0"]), ("int", ["1.0", "1", "decimal.Decimal('2')", "2", "'3'", "3"]),
+    ("float", ["1", "1.0", "True", "decimal.Decimal('0')", "-0.0"]),
+    ("fractions.Fraction", ["fractions.Fraction(1, 2)", "fractions.Fraction(2, 4)", "decimal.Decimal('0.5')", "fractions.Fraction(1, 2)"]),
+    ("bool", ["1", "True", "0", "False"]), ("str", ["S('ab')", "'ab'"]),
+    ("datetime.datetime", ["datetime.datetime(2020, 1, 1, 12, tzinfo=UTC)", "datetime.datetime(2020, 1, 1, 13, tzinfo=P1)",
+                           "datetime.datetime(2020, 1, 1, 7, tzinfo=M5)"]),
+    ("datetime.time", ["datetime.time(12, tzinfo=UTC)", "datetime.time(13, tzinfo=P1)"]),
+    ("typing.List[int]", ["[True, False]", "[1, 0]", "[0, 1, 2]"]), ("typing.Dict[str, int]", ["{'a': True}", "{'a': 1}"]),
+    ("typing.Optional[int]", ["True", "1", "None"]), ("typing.Tuple[str, int]", ["('ab', False)", "('ab', 0)"]),
+    ("typing.List[decimal.Decimal]", ["[decimal.Decimal('2.50')]", "[decimal.Decimal('2.5')]", "[decimal.Decimal('2.500'), decimal.Decimal('2.5')]"]),
+    ("typing.Dict[str, float]", ["{'z': 0.0}", "{'z': -0.0}"]), ("Account", ["Account(True, False)", "Account(1, 0)", "Account(0, 1)"]),
+    ("Row", ["Row('ab', True, decimal.Decimal('1.0'))", "Row('ab', 1, decimal.Decimal('1'))", "Row('ab', 1, decimal.Decimal('1.00'))"]),
+    ("typing.Set[decimal.Decimal]", ["{decimal.Decimal('2.50')}", "{decimal.Decimal('2.5')}"]),
+    ("typing.Dict[decimal.Decimal, int]", ["{decimal.Decimal('2.50'): 1}", "{decimal.Decimal('2.5'): 1}"]),
+]
+TWIN_SRC = """
+import dataclasses, decimal, fractions, datetime, typing
+UTC = datetime.timezone.utc
+P1 = datetime.timezone(datetime.timedelta(hours=1))
+M5 = datetime.timezone(datetime.timedelta(hours=-5))
+class S(str):
+    pass
+@dataclasses.dataclass
+class Account:
+    id: int
+    retries: int
+class Row(typing.NamedTuple):
+    label: str
+    count: int
+    amount: decimal.Decimal
+"""
+
+
+def _twin_child(case):
+    import warnings
+    warnings.simplefilter("ignore")
+    import sys
+    import types
+    import typing
+    import dataclasses
+    import typelib
+    mod = types.ModuleType("vm_c13_twin")
+    sys.modules["vm_c13_twin"] = mod
+    ns = mod.__dict__
+    exec(TWIN_SRC, ns)
+    t = eval(case[0], ns)
+
+    def valid(a, x):
+        og, ar = typing.get_origin(a), typing.get_args(a)
+        if og is typing.Union:
+            return any(valid(m, x) for m in ar)
+        if a is type(None):
+            return x is None
+        if og is list:
+            return type(x) is list and all(valid(ar[0], e) for e in x)
+        if og is set:
+            return type(x) is set and all(valid(ar[0], e) for e in x)
+        if og is dict:
+            return type(x) is dict and all(valid(ar[0], k) and valid(ar[1], v) for k, v in x.items())
+        if og is tuple:
+            return type(x) is tuple and len(x) == len(ar) and all(valid(m, e) for m, e in zip(ar, x))
+        if dataclasses.is_dataclass(a) or hasattr(a, "_fields"):
+            return type(x) is a and all(valid(h, getattr(x, n)) for n, h in typing.get_type_hints(a).items())
+        return type(x) is a
+
+    def show(x):
+        if isinstance(x, (set, frozenset)):
+            return [type(x).__name__, sorted(show(e) for e in x)]
+        if isinstance(x, dict):
+            return ["dict", [[show(k), show(v)] for k, v in x.items()]]
+        if isinstance(x, tuple) and hasattr(x, "_fields") or dataclasses.is_dataclass(x):
+            return [type(x).__name__] + [show(getattr(x, n)) for n in typing.get_type_hints(type(x))]
+        if isinstance(x, (list, tuple)):
+            return [type(x).__name__] + [show(e) for e in x]
+        off = getattr(x, "utcoffset", None)
+        return f"{type(x).__name__}:{x!r}" + (f"@{off()}" if off else "")
+    out = []
+    for src in case[1]:
+        v = eval(src, ns)
+        if not valid(t, v):
+            try:
+                typelib.unmarshal(t, v)        # an earlier, ordinary conversion of the same routine
+            except Exception:  # noqa: BLE001
+                pass
+            continue
+        try:
+            r = typelib.unmarshal(t, v)
+            out.append([src, show(r) == show(v), repr(show(r))[:200]])
+        except Exception as e:  # noqa: BLE001
+            out.append([src, False, f"raised {type(e).__name__}: {e}"[:200]])
+    return out
+
+
+def twin_values(res):
+    from .. import iso
+    jobs = TWIN_CASES + [(a, list(reversed(vs))) for a, vs in TWIN_CASES]
+    outs = iso.map_isolated(_twin_child, jobs, timeout=60.0)
+    for case, o in zip(jobs, outs):
+        if not isinstance(o, list) or not o:
+            raise RuntimeError(f"harness: twin-value probe failed: {case}: {o}")
+        for src, ok, got in o:
+            res.case({"ann": case[0], "val": src, "after": case[1][:case[1].index(src)], "family": "equal-twins"}, True)
+            if ok:
+                res.count("oracle:passthrough-ok(after-an-equal-value)")
+            else:
+                res.failures.append({"what": f"unmarshal({case[0]}, {src}) returned {got} after the same routine saw "
+                                             f"{case[1][:case[1].index(src)]}: a valid value did not pass through as itself",
+                                     "input": {"twin_case": [case[0], list(case[1])]}})
+
+
 def witness(fid):
     return None
 
@@ -228,6 +344,11 @@ def replay(failure):
         o = iso.map_isolated(_inherit_child, [tuple(inp["inherit_case"])], timeout=60.0)[0]
         print(json.dumps({"case": inp["inherit_case"], "real": o}, indent=1))
         return not (isinstance(o, dict) and o.get("pass"))
+    if "twin_case" in inp:
+        from .. import iso
+        o = iso.map_isolated(_twin_child, [tuple(inp["twin_case"])], timeout=60.0)[0]
+        print(json.dumps({"case": inp["twin_case"], "real": o}, indent=1))
+        return not (isinstance(o, list) and all(x[1] for x in o))
     if "flag_case" in inp:
         o = _flag_child(inp["flag_case"])
         print(json.dumps({"case": inp["flag_case"], "real": o}, indent=1))
